@@ -83,6 +83,14 @@ def generate(rng, tier, index):
         cfg["particles"].append(dict(m=q["m"] * 0.5, x=q["x"] + 0.7 * rr * (1 if q["x"] < 0 else -1), y=q["y"], z=q["z"], vx=q["vx"] - 0.05 * sz * (1 if q["x"] < 0 else -1), vy=q["vy"], vz=q["vz"],
                                      r=0.5 * rr, hash=2999))
         ops += [dict(op="steps", n=1), dict(op="save", via=pm.choice(TRANSPORTS))]
+    pv = rng.derive("plant-vanish")
+    if not cfg.get("box") and pv.chance(0.06):
+        # an integrator array exists in the first archive snapshot and has vanished by the second: the delta then carries a zero-sized field
+        ops += [dict(op="steps", n=pv.randint(1, 6)), dict(op="save", via="archive"), dict(op="reset_integrator")]
+        if pv.chance(0.6):
+            ni = pv.choice([x for x in simgen.INTEGRATORS_ALL if x != "sei"])
+            ops.append(dict(op="switch", integrator=ni, opts=simgen.integrator_opts(pv, ni)))
+        ops.append(dict(op="save", via=pv.choice(["archive", "archive_index"])))
     nh = [3000]
     nsave = sum(1 for x in ops if x["op"] == "save")
     for i in range(nops):
